@@ -248,6 +248,9 @@ impl Model for Hist {
             }
             if al.close_account {
                 v.push(Action::CloseAccount { u });
+                if al.transfer {
+                    v.push(Action::CloseOriginal { u });
+                }
             }
         }
         if al.liquidate {
@@ -365,6 +368,7 @@ pub fn action_kind(a: &Action) -> &'static str {
         Action::ForceTokenlessComplete { .. } => "force_tokenless_complete",
         Action::Transfer { .. } => "transfer_account",
         Action::CloseAccount { .. } => "close_account",
+        Action::CloseOriginal { .. } => "close_original_account",
         Action::CloseBank { .. } => "close_bank",
         Action::Freeze { .. } => "freeze",
         Action::Advance { .. } => "advance",
@@ -864,6 +868,140 @@ impl StepOracle for CapsOracle {
                     clause: "C17.deposits_cover_debt".into(),
                     detail: format!("{:?} succeeded and left total deposits {:.9} below total debt {:.9}", c.a, rf::qf64(&qn.deposits()), rf::qf64(&qn.liabs())),
                 });
+            }
+        }
+    }
+}
+
+// ------------------------------------------------------------------------------------------------
+// C16 — account structure
+
+pub struct StructureOracle;
+
+fn is_default_class(tag: u8) -> bool {
+    matches!(tag, ASSET_TAG_DEFAULT | ASSET_TAG_KAMINO | ASSET_TAG_DRIFT | ASSET_TAG_SOLEND)
+}
+
+pub fn structure_violations(ma: &marginfi_type_crate::types::MarginfiAccount, who: &str) -> Vec<Violation> {
+    let mut out = vec![];
+    let bals = &ma.lending_account.balances;
+    let active: Vec<&marginfi_type_crate::types::Balance> = bals.iter().filter(|b| b.active != 0).collect();
+    for i in 0..active.len() {
+        for j in i + 1..active.len() {
+            if active[i].bank_pk == active[j].bank_pk {
+                out.push(Violation { clause: "C16.one_position_per_bank".into(), detail: format!("{who}: two active positions in bank {}", world::label_of(&active[i].bank_pk)) });
+            }
+        }
+    }
+    for b in &active {
+        if rf::q(b.asset_shares) >= rf::qone() && rf::q(b.liability_shares) >= rf::qone() {
+            out.push(Violation { clause: "C16.one_side_per_bank".into(), detail: format!("{who}: bank {} holds {:.4} asset shares and {:.4} liability shares", world::label_of(&b.bank_pk), rf::qf64(&rf::q(b.asset_shares)), rf::qf64(&rf::q(b.liability_shares))) });
+        }
+    }
+    // active positions form a prefix, ordered by bank key descending
+    let mut seen_inactive = false;
+    let mut prev: Option<Pubkey> = None;
+    for b in bals.iter() {
+        if b.active == 0 {
+            seen_inactive = true;
+            continue;
+        }
+        if seen_inactive {
+            out.push(Violation { clause: "C16.sorted".into(), detail: format!("{who}: an active position follows an empty slot") });
+            break;
+        }
+        if let Some(p) = prev {
+            if b.bank_pk > p {
+                out.push(Violation { clause: "C16.sorted".into(), detail: format!("{who}: positions are not in descending bank-key order") });
+                break;
+            }
+        }
+        prev = Some(b.bank_pk);
+    }
+    let staked = active.iter().any(|b| b.bank_asset_tag == ASSET_TAG_STAKED);
+    let default_like = active.iter().any(|b| is_default_class(b.bank_asset_tag));
+    if staked && default_like {
+        out.push(Violation { clause: "C16.tag_compat".into(), detail: format!("{who}: staked-collateral and default-class positions in one account") });
+    }
+    let integ = active.iter().filter(|b| matches!(b.bank_asset_tag, ASSET_TAG_KAMINO | ASSET_TAG_DRIFT | ASSET_TAG_SOLEND)).count();
+    if integ > 8 || active.len() > 16 {
+        out.push(Violation { clause: "C16.bounded".into(), detail: format!("{who}: {} integration positions, {} positions", integ, active.len()) });
+    }
+    out
+}
+
+impl StepOracle for StructureOracle {
+    fn name(&self) -> &'static str {
+        "C16"
+    }
+    fn check(&self, c: &StepCtx, out: &mut Vec<Violation>, tags: &mut Vec<&'static str>) {
+        use marginfi_type_crate::types::{ACCOUNT_DISABLED, ACCOUNT_FROZEN, ACCOUNT_IN_FLASHLOAN, ACCOUNT_IN_RECEIVERSHIP};
+        let acting = match c.a {
+            Action::Deposit { u, .. } | Action::Withdraw { u, .. } | Action::Borrow { u, .. } | Action::Repay { u, .. } | Action::CloseAccount { u } | Action::Transfer { u } => Some(*u),
+            _ => None,
+        };
+        if !c.res.committed {
+            return;
+        }
+        // disabled accounts cannot transact
+        if let (Some(u), Action::Deposit { .. } | Action::Withdraw { .. } | Action::Borrow { .. } | Action::Repay { .. }) = (acting, c.a) {
+            if let Some(pre) = world::try_account(&c.pre.s, &act::cur_account(c.w, &c.pre.s, u)) {
+                if pre.account_flags & ACCOUNT_DISABLED != 0 {
+                    out.push(Violation { clause: "C16.disabled_cannot_transact".into(), detail: format!("{:?} succeeded on a disabled account", c.a) });
+                }
+            }
+        }
+        if let Action::CloseAccount { u } | Action::CloseOriginal { u } = c.a {
+            tags.push("account_closed");
+            let target = if matches!(c.a, Action::CloseOriginal { .. }) { c.w.users[*u].account } else { act::cur_account(c.w, &c.pre.s, *u) };
+            if let Some(pre) = world::try_account(&c.pre.s, &target) {
+                let nonempty = pre.lending_account.balances.iter().any(|b| b.active != 0 && (rf::q(b.asset_shares) >= rf::qone() || rf::q(b.liability_shares) >= rf::qone()));
+                let bad_flags = pre.account_flags & (ACCOUNT_DISABLED | ACCOUNT_FROZEN | ACCOUNT_IN_FLASHLOAN | ACCOUNT_IN_RECEIVERSHIP);
+                if nonempty || bad_flags != 0 {
+                    out.push(Violation { clause: "C16.close_only_when_empty".into(), detail: format!("account closed with non-empty positions={} flags={:#b}", nonempty, pre.account_flags) });
+                }
+            }
+        }
+        if let Action::Transfer { u } = c.a {
+            tags.push("transferred");
+            let old_k = act::cur_account(c.w, &c.pre.s, *u);
+            let new_k = act::next_account_key(&old_k);
+            let (pre_old, post_old, post_new) = (world::try_account(&c.pre.s, &old_k), world::try_account(c.post, &old_k), world::try_account(c.post, &new_k));
+            if let (Some(po), Some(qo), Some(qn)) = (pre_old, post_old, post_new) {
+                if qo.lending_account.balances.iter().any(|b| b.active != 0) || qo.account_flags & ACCOUNT_DISABLED == 0 || qo.migrated_to != new_k {
+                    out.push(Violation { clause: "C16.transfer_moves_everything".into(), detail: "after transfer the old account is not empty + disabled + pointing at the new account".into() });
+                }
+                if qn.lending_account != po.lending_account {
+                    out.push(Violation { clause: "C16.transfer_moves_everything".into(), detail: "the new account does not hold exactly the old positions".into() });
+                }
+                // only once: transferring the old account again must fail
+                let mut t = c.post.clone();
+                let again = crate::ix::transfer_to_new_account(c.w.group, old_k, world::key("c16:second-transfer-target"), c.w.users[*u].authority, c.w.payer, c.w.users[*u].authority, c.w.fee_wallet);
+                let r = crate::svm::process_tx(&mut t, &crate::svm::Tx::one(again, &[c.w.users[*u].authority, c.w.payer, world::key("c16:second-transfer-target")]));
+                if r.ok() {
+                    out.push(Violation { clause: "C16.transfer_once".into(), detail: "a migrated account was transferred a second time".into() });
+                }
+            } else {
+                out.push(Violation { clause: "C16.transfer_moves_everything".into(), detail: "transfer succeeded but old/new accounts cannot be read".into() });
+            }
+        }
+        // structural invariants of every account + tag stability of live slots
+        let pre_accts = rf::all_accounts(&c.pre.s);
+        for (k, ma) in rf::all_accounts(c.post) {
+            let pre = pre_accts.iter().find(|(pk, _)| *pk == k).map(|x| &x.1);
+            if pre.map(|p| p.lending_account == ma.lending_account).unwrap_or(false) {
+                continue;
+            }
+            tags.push("structure_checked");
+            out.extend(structure_violations(&ma, &world::label_of(&k)));
+            if let Some(p) = pre {
+                for b in ma.lending_account.balances.iter().filter(|b| b.active != 0) {
+                    if let Some(pb) = p.lending_account.balances.iter().find(|x| x.active != 0 && x.bank_pk == b.bank_pk) {
+                        if pb.bank_asset_tag != b.bank_asset_tag {
+                            out.push(Violation { clause: "C16.tag_stable".into(), detail: format!("position in bank {} changed its asset tag {} -> {}", world::label_of(&b.bank_pk), pb.bank_asset_tag, b.bank_asset_tag) });
+                        }
+                    }
+                }
             }
         }
     }
